@@ -3,7 +3,7 @@
    release_taskgraphs, where enforcement is unconditional).  Only statements; proofs are in Proofs/IlpP.v. *)
 From Coq Require Import ZArith Bool List.
 Import ListNotations.
-From Verif Require Import Model.Val Gen.Src_Ilp Model.IlpModel Proofs.IlpP.
+From Verif Require Import Model.Val Gen.Src_Ilp Model.IlpModel Proofs.IlpP Proofs.IlpP11 Proofs.IlpP10 Proofs.IlpP14 Proofs.IlpP14s Proofs.IlpPM.
 Open Scope Z_scope.
 
 (* without release_taskgraphs the set _allowed_to_miss_deadlines is never consulted: nobody is exempt *)
@@ -26,6 +26,14 @@ Theorem C12_ilp_hopeless_unplaced : forall I a, sat (gen_ilp I) a -> rt_nonneg I
   t_deadline t < i_now I + 1 + fastest t -> decision I a t = None.
 Proof. exact C12_hopeless_unplaced. Qed.
 Print Assumptions C12_ilp_hopeless_unplaced.
+
+(* the monitors applied to the implementation's answers are the decidable forms of the plan-level properties *)
+Theorem C12_ilp_monitor_spec : forall I p, c12_check I p = true <-> C12_plan_ok I p.
+Proof. exact c12_check_spec. Qed.
+Print Assumptions C12_ilp_monitor_spec.
+Theorem C12_ilp_hopeless_monitor_spec : forall I p, c12_hopeless_check I p = true <-> C12_hopeless_ok I p.
+Proof. exact c12_hopeless_check_spec. Qed.
+Print Assumptions C12_ilp_hopeless_monitor_spec.
 
 (* the hypotheses are satisfiable by a non-trivial state (a two-task chain, both placed) *)
 Theorem C12_ilp_nonvacuous : exists I a t s w k,
